@@ -99,3 +99,21 @@ def build(inp):
     if inp.get("fmax"):
         return _build_fmax(inp)
     return thr_common.build_thr(ID, inp, ["extreme"])
+
+
+# --------------------------------------------------------------------------------------
+# second tie: the decision tables of this property regenerated from the source on every run
+# (harness/dectables.py -> generated Lean file checked by the kernel; bridge: SA/Theorems/DecTables.lean)
+# --------------------------------------------------------------------------------------
+def extra_gate_start():
+    """start the translator + Lean check in a child process; the cases run meanwhile"""
+    import common
+    import dectables
+    return dectables.start(common.REPO)
+
+
+def extra_gate_finish(handle):
+    """-> {problems, theorems, obligations, discharged, notes, evidence}; a definite mismatch of a table row is a
+    broken proof obligation, `unknown` rows are evidence only"""
+    import dectables
+    return dectables.gate_result(dectables.finish(handle), ID)
